@@ -162,6 +162,10 @@ def grid():
     add("blocking", brl.ExactMatchRule, "colexpr", lambda: brl.ExactMatchRule(CE("name").lower()))
     add("blocking", brl.ExactMatchRule, "salted", lambda: brl.block_on("name", salting_partitions=3))
     add("blocking", brl.ExactMatchRule, "exploding", lambda: brl.block_on("arr", arrays_to_explode=["arr"]))
+    add("blocking", brl.ExactMatchRule, "exploding three arrays",
+        lambda: brl.block_on("arr_postcodes", arrays_to_explode=["arr_postcodes", "arr_names", "arr_emails"]))
+    add("blocking", brl.CustomRule, "exploding four arrays",
+        lambda: brl.CustomRule("l.zeta = r.zeta and l.alpha = r.alpha", arrays_to_explode=["zeta", "alpha", "mid", "beta"]))
     add("blocking", brl.And, "two", lambda: brl.block_on("name", "dob"))
     add("blocking", brl.And, "salted", lambda: brl.block_on("name", "substr(dob, 1, 4)", salting_partitions=2))
     add("blocking", brl.And, "mixed", lambda: brl.And(brl.block_on("name"), brl.CustomRule("l.a = r.a", salting_partitions=4)))
